@@ -69,6 +69,14 @@ func (ex *Exec) callFn(fr *Frame, st *State, pc *Term, fn *ssa.Function, args []
 		return ex.specForall(fr, st, pc, args[0]), pc
 	case "verif_forall_range":
 		return ex.specForallRange(fr, st, pc, args[0].(VBV).T, args[1].(VBV).T, args[2]), pc
+	case "verif_same":
+		// identity of two references (maps, pointers, slices): equal representation
+		a, b := toLeaves(args[0]), toLeaves(args[1])
+		var eqs []*Term
+		for i := range a {
+			eqs = append(eqs, Eq(a[i], b[i]))
+		}
+		return VBool{And(eqs...)}, pc
 	case "verif_preserved":
 		ex.lastPreserved = [2]Value{args[0], args[1]}
 		ex.lastPreservedSt = st.clone() // holds the cells of the captured variables
